@@ -482,6 +482,9 @@ def enum_cases(cls):
         "columns_after_as_select": (lambda: Q.create_table("x").as_select(Q.from_(t).select(t.a)), lambda q: q.columns("a")),
         "as_select_after_columns": (lambda: Q.create_table("x").columns("a"), lambda q: q.as_select(Q.from_(t).select(t.a))),
         "insert_without_into": (lambda: Q.from_(t), lambda q: q.insert(1)),
+        # the MySQL LOAD DATA builder has the same one-shot calls (reached through MySQLQuery whatever the class under test)
+        "load_into": (lambda: P.MySQLQuery.load("f").into("a"), lambda q: q.into("b")),
+        "load_load": (lambda: P.MySQLQuery.load("f").into("a"), lambda q: q.load("g")),
         "columns_without_into": (lambda: Q.from_(t), lambda q: q.columns("a")),
     }
     # (g) a join that is given no condition at all is rejected at the call with the join exception (sources: table, subquery, aliased table)
